@@ -710,6 +710,17 @@ Proof.
   - apply rejects_whole in E. congruence.
 Qed.
 
+(* Whatever the command - a POST whose body read failed after any number of
+   bytes (even a complete valid configuration), a malformed or unknown
+   configuration, a wrong method, GET, probe traffic -: unless the answer is
+   200 to a POST, config text, request half and response half are untouched. *)
+Theorem only_200_changes_active : forall n a c,
+  snd (impl_step n a c) <> OStatus true -> fst (impl_step n a c) = a.
+Proof.
+  intros n a c H. destruct c as [t|k cond| |t|]; cbn [impl_step] in *; try reflexivity.
+  unfold post in *. destruct (compile t) as [r|]; cbn [fst snd] in *; [congruence|reflexivity].
+Qed.
+
 (* what the Modifier does = what the last accepted tree means *)
 Definition rel (a : active) (cur : option (nat * tree)) : Prop :=
   acfg a = match cur with Some (i, _) => Some i | None => None end /\
@@ -722,7 +733,8 @@ Lemma step_refines : forall n a cur c, rel a cur ->
   snd (impl_step n a c) = snd (spec_step n cur c) /\
   rel (fst (impl_step n a c)) (fst (spec_step n cur c)).
 Proof.
-  intros n a cur c [Hc Hs]. destruct c as [t|k cond|]; cbn [impl_step spec_step].
+  intros n a cur c [Hc Hs]. destruct c as [t|k cond| |t|]; cbn [impl_step spec_step];
+    try (cbn [fst snd]; split; [reflexivity|split; assumption]).
   - destruct (has_bad t) eqn:Hb.
     + rewrite (reject_keeps_active n a t Hb). cbn. split; [reflexivity|]. split; assumption.
     + destruct (accept_replaces n a t Hb) as (H1 & H2 & H3).
@@ -768,11 +780,12 @@ Qed.
 
 Lemma obs_eqb_eq : forall a b, obs_eqb a b = true <-> a = b.
 Proof.
-  intros [x|t1 e1|x] [y|t2 e2|y]; cbn; try (split; congruence).
+  intros [x|t1 e1|x|x] [y|t2 e2|y|y]; cbn; try (split; congruence).
   - rewrite eqb_true_iff. split; congruence.
   - rewrite andb_true_iff, !nlist_eqb_eq. split; [intros [-> ->]; reflexivity|intros E; inversion E; auto].
   - destruct x as [x|], y as [y|]; cbn; try (split; congruence).
     rewrite Nat.eqb_eq. split; congruence.
+  - rewrite N.eqb_eq. split; congruence.
 Qed.
 
 Theorem c12_ok_iff : forall k cond t o,
@@ -881,7 +894,8 @@ Lemma interleaving_spec : forall k cond cs n cur,
 Proof.
   intros k cond cs. induction cs as [|c cs IH]; intros n cur HF; [constructor|].
   inversion HF as [|? ? Hc HF']; subst.
-  destruct c as [t|k' cond'|]; cbn [spec_script spec_step posts probe_obs].
+  destruct c as [t|k' cond'| |t|]; cbn [spec_script spec_step posts probe_obs];
+    try (apply IH; assumption).
   - destruct (has_bad t) eqn:Hb; cbn [probe_obs filter negb].
     + rewrite Hb. cbn [negb]. apply IH; assumption.
     + rewrite Hb. cbn [negb map]. apply ex_adv. exact (IH (S n) (Some (n, t)) HF').
@@ -889,7 +903,6 @@ Proof.
     destruct cur as [[i t]|]; cbn [probe_obs fst snd].
     + rewrite <- surjective_pairing. apply ex_stay. exact (IH (S n) (Some (i, t)) HF').
     + apply ex_stay. exact (IH (S n) None HF').
-  - apply IH; assumption.
 Qed.
 
 (* For EVERY interleaving: the probe thread's observations walk forward
